@@ -527,6 +527,12 @@ def ex_ch_violation(html_text):
         if css_related(exc):
             return f'computing the styles of the document raised {type(exc).__name__}: {exc}'
         return None
+    from harness.cascade_docs import leftover_unit
+    for label, style in styles_of(document):
+        hit = leftover_unit(style, var_keys(html_text))
+        if hit:
+            return (f'{label}: style[{hit[0]!r}] is {hit[1]}: a length in a relative or non-px unit is left in the '
+                    f'computed value (the computed value of a <length> is in px)')
     for label, style in styles_of(document):
         for key, (value, _) in getattr(style, 'cascaded', {}).items():
             if key not in ('width', 'margin_left', 'padding_left', 'text_indent', 'top', 'min_height'):
@@ -541,4 +547,267 @@ def ex_ch_violation(html_text):
                 return (f'{label}: {key}: {value.value}{value.unit} computes to {got!r}; font-size {style["font_size"]}px x '
                         f'{value.unit} ratio {ratio} of its own font gives {want}px (the ratio used is '
                         f'{got_px / value.value / style["font_size"] if style["font_size"] else "?"})')
+    return None
+
+
+# ---------------------------------------------------------------------------------------------
+# the property tables against the CSS definition (lean/WpModel/Model/CssSpec.lean)
+
+PROPAGATED = ('page', 'text_decoration_line', 'text_decoration_color', 'text_decoration_style', 'text_decoration_thickness')
+SENTINEL = 'parent-sentinel'
+
+
+class SentinelParent(dict):
+    """A parent style that answers every key with a sentinel (what it holds is never computed again)."""
+
+    def __init__(self):
+        super().__init__({'__touched': True})       # `if parent_style:` needs a non-empty dict
+        self.cache = empty_cache()
+        self.parent_style = None
+
+    def __missing__(self, key):
+        return SENTINEL
+
+
+def inheritance_behaviour(key, anonymous):
+    """'inherits' | 'initial' | err:…: what an element without a declaration for `key` gets below a parent."""
+    import xml.etree.ElementTree as ET
+    from weasyprint.css import computed_from_cascaded
+    from weasyprint.css.properties import INITIAL_VALUES
+    element = ET.Element('p', {})
+    cascaded = {} if anonymous else {'nonexistent_key': ('x', (3, (0, 0, 0, 1)))}
+    style = computed_from_cascaded(element, cascaded, SentinelParent(), None, {'font_size': 16}, None)
+    try:
+        value = style[key]
+    except Exception as exc:  # noqa: BLE001
+        return f'err:{type(exc).__name__}'
+    return 'inherits' if value == SENTINEL else 'initial'
+
+
+def sample_document(key):
+    """A document in which a <div> declares `key` and its <p id=x> child does not; -> (html, declared value) | None."""
+    from harness import cascade_docs
+    name = key.replace('_', '-')
+    for value in cascade_docs.DECLS.get(name, []) + VAR_DECLS.get(name, []):
+        if value in ('inherit', 'initial'):
+            continue
+        decls = cascade_docs.declarations_of(f'{name}:{value}')
+        if len(decls) == 1 and decls[0][0] == key:
+            from weasyprint.css.properties import INITIAL_VALUES
+            if canon(decls[0][1]) != canon(INITIAL_VALUES[key]):
+                return f'<div style="{name}:{value}"><p id=x>t</p></div>', value
+    return None
+
+
+def spec_tables_section(run):
+    from vlib import lean
+    from weasyprint.css.properties import INITIAL_VALUES
+    sec = run.section(
+        'spec-tables',
+        'every key of INITIAL_VALUES: what a real ComputedStyle and a real AnonymousStyle without a declaration for it '
+        'get below a parent that answers every key with a sentinel (inherits | initial), vs the CSS definition held in '
+        'Model/CssSpec.lean (written from the specifications, not generated); text-decoration-* and page are propagated '
+        'and left out; and INITIAL_VALUES[key] vs the initial value of CSS for the pinned properties; non-trivial = all')
+    pinned = set(lean.run_driver(run.prop.driver, ['universe specinitial'])[0].split(' '))
+    for key in INITIAL_VALUES:
+        if key not in PROPAGATED:
+            for anonymous in (False, True):
+                if anonymous and key in ('border_top_width', 'border_bottom_width', 'border_left_width',
+                                         'border_right_width', 'outline_width'):
+                    continue        # preset to 0 by AnonymousStyle.__init__
+                out = inheritance_behaviour(key, anonymous)
+                sec.add(sx.line('specinherits', key), out,
+                        meta={'key': key, 'anonymous': anonymous, 'kind': 'inheritance',
+                              'signature': f'spec-inherit:{key}'},
+                        tags=['anonymous' if anonymous else 'computed', out])
+        if key in pinned:
+            sec.add(sx.line('specinitial', key), canon(INITIAL_VALUES[key]),
+                    meta={'key': key, 'kind': 'initial', 'signature': f'spec-initial:{key}'}, tags=['initial-value'])
+    run.extra['spec_pinned_initial_values'] = len(pinned)
+
+
+def classify_spec(d):
+    """The recorded deviation from the CSS inheritance table."""
+    meta = d.get('meta') or {}
+    if d.get('section') == 'spec-tables' and meta.get('kind') == 'inheritance' and meta.get('key') == 'image_orientation' \
+            and d['impl'] == 'initial' and d['model'] == 'inherits':
+        return 'image-orientation-not-inherited'
+    return None
+
+
+def judge_spec(meta, impl, model):
+    key = meta['key']
+    name = key.replace('_', '-')
+    if meta['kind'] == 'initial':
+        return f'INITIAL_VALUES[{key!r}] is {impl}; the initial value of {name} in CSS is {model}'
+    who = 'an element without any declaration (AnonymousStyle)' if meta['anonymous'] else 'an element without a declaration for it'
+    text = (f'{name}: {who} {"takes the value of its parent" if impl == "inherits" else "takes the initial value" if impl == "initial" else "raises " + impl}; '
+            f'CSS defines {name} as {"inherited" if model == "inherits" else "not inherited"}')
+    sample = sample_document(key)
+    if sample:
+        html, value = sample
+        try:
+            document = docs.render(html)
+            got = {label: canon(style[key]) for label, style in styles_of(document) if label in ('div#None', 'p#x')}
+            text += f'; {html}: box.style[{key!r}] of the <div> is {got.get("div#None")}, of the <p> {got.get("p#x")}'
+        except Exception as exc:  # noqa: BLE001
+            text += f'; {html} raises {type(exc).__name__}'
+    return text
+
+
+def replay_spec(meta):
+    from vlib import lean
+    from props.c06 import PROP
+    from weasyprint.css.properties import INITIAL_VALUES
+    if meta['kind'] == 'initial':
+        impl = canon(INITIAL_VALUES[meta['key']])
+        model = lean.run_driver(PROP.driver, [sx.line('specinitial', meta['key'])])[0]
+    else:
+        impl = inheritance_behaviour(meta['key'], meta['anonymous'])
+        model = lean.run_driver(PROP.driver, [sx.line('specinherits', meta['key'])])[0]
+    return judge_spec(meta, impl, model) if impl != model else None
+
+
+def replay_image_orientation_not_inherited():
+    """known finding: image-orientation (Inherited: yes) does not reach the <img> from its parent."""
+    document = docs.render('<div style="image-orientation: 90deg"><img id=i src="data:image/svg+xml,'
+                           '<svg xmlns=\'http://www.w3.org/2000/svg\' width=\'4\' height=\'2\'/>"></div>')
+    for label, style in styles_of(document):
+        if label == 'img#i':
+            return style['image_orientation'] == 'from-image'
+    return False
+
+
+# ---------------------------------------------------------------------------------------------
+# presentational hints (find_style_attributes) vs lean/WpModel/Model/PresHints.lean
+
+HINT_TAGS = ['body', 'center', 'div', 'font', 'table', 'tr', 'td', 'th', 'thead', 'tbody', 'tfoot', 'caption', 'col', 'hr',
+             'iframe', 'applet', 'embed', 'img', 'input', 'object', 'ol', 'li', 'p', 'span']
+HINT_ATTRS = {
+    'body': ['marginheight', 'topmargin', 'bottommargin', 'marginwidth', 'leftmargin', 'rightmargin', 'background',
+             'bgcolor', 'text'],
+    'div': ['align'], 'font': ['color', 'face', 'size'],
+    'table': ['cellspacing', 'cellpadding', 'hspace', 'vspace', 'width', 'height', 'background', 'bgcolor', 'bordercolor',
+              'border', 'align'],
+    'hr': ['size', 'color', 'noshade', 'width'], 'col': ['width'], 'caption': ['align'], 'ol': ['start'], 'li': ['value'],
+}
+for _tag in ('tr', 'td', 'th', 'thead', 'tbody', 'tfoot'):
+    HINT_ATTRS[_tag] = ['align', 'background', 'bgcolor', 'height', 'width']
+for _tag in ('iframe', 'applet', 'embed', 'img', 'input', 'object'):
+    HINT_ATTRS[_tag] = ['align', 'hspace', 'vspace', 'width', 'height', 'border', 'type']
+HINT_VALUES = ['3', ' 3 ', '+2', '-1', '+ 4', '- 2', '--2', '+-1', '12', '0', '1', '2', '7', '8', '-9', 'abc', '', ' ', '50%',
+               '1.5', '10px', '007', 'red', '#fff', 'x.png', 'Middle', 'CENTER', 'left', 'Right', 'justify', 'top', 'image',
+               'IMAGE', 'text', '4 ', '+', '-']
+
+
+def w_text(text):
+    return ['s'] + [ord(c) for c in text]
+
+
+class recorded_hint_texts:
+    """Inside the block `tinycss2.parse_blocks_contents(text)` returns the text itself, so that
+    find_style_attributes yields the declaration block texts it builds."""
+
+    def __enter__(self):
+        import tinycss2
+        self.mod, self.real = tinycss2, tinycss2.parse_blocks_contents
+        tinycss2.parse_blocks_contents = lambda text, *a, **k: text
+
+    def __exit__(self, *exc):
+        self.mod.parse_blocks_contents = self.real
+
+
+def hint_texts(tag, attrs, children=()):
+    """-> ({element: [texts]} for the element and its children) by the real find_style_attributes."""
+    import xml.etree.ElementTree as ET
+    from weasyprint.css import find_style_attributes
+    root = ET.Element('html')
+    element = ET.SubElement(root, tag, dict(attrs))
+    kids = [ET.SubElement(element if i % 2 == 0 else kids_parent, child) for i, child in enumerate(children)
+            for kids_parent in [element]]
+    out = {id(element): []}
+    for kid in kids:
+        out[id(kid)] = []
+    with recorded_hint_texts():
+        for specificity, (el, text, _) in find_style_attributes(root, True, None):
+            if specificity != (0, 0, 0, 0):
+                out.setdefault(id(el), []).append(f'<specificity {specificity}> {text}')
+            else:
+                out.setdefault(id(el), []).append(text)
+    return out[id(element)], [out[id(kid)] for kid in kids]
+
+
+def pres_hints_section(run):
+    sec = run.section(
+        'presentational-hints',
+        'real find_style_attributes(tree, presentational_hints=True) on one generated element (24 tags x the HTML '
+        'attributes the function reads, values: digits, signed / padded / malformed numbers, percentages, keywords in '
+        'mixed case, empty strings): the declaration block texts it yields for the element, in order (and, for '
+        '<table cellpadding>, for its td / th children) vs Model/PresHints.lean; non-trivial = at least one attribute '
+        'the function reads is present')
+    rng = run.rng
+    cases = []
+    # exhaustive: every <font size>, <hr size> x shading, align value x tag, digit / non-digit dimension
+    for sign in ('', '+', '-', '+ ', ' -'):
+        for n in range(0, 10):
+            cases.append(('font', {'size': f'{sign}{n}'}))
+    for size in ('0', '1', '2', '3', '4', '7', '-1', 'x'):
+        for extra in ({}, {'noshade': ''}, {'color': 'red'}, {'color': ''}, {'width': '50'}):
+            cases.append(('hr', dict({'size': size}, **extra)))
+    for tag in ('div', 'td', 'th', 'tr', 'thead', 'tbody', 'tfoot', 'caption', 'img', 'input', 'object', 'p'):
+        for align in ('left', 'Right', 'CENTER', 'middle', 'justify', 'top', ''):
+            cases.append((tag, {'align': align}))
+            if tag == 'input':
+                cases.append((tag, {'align': align, 'type': 'Image'}))
+    for tag in ('table', 'td', 'col', 'img', 'hr'):
+        for value in ('40', '40%', '4em', ' 40', '0'):
+            cases.append((tag, {'width': value, 'height': value}))
+    while len(cases) < run.n(1000, 25000):
+        tag = rng.choice(HINT_TAGS)
+        names = HINT_ATTRS.get(tag, ['align', 'width'])
+        attrs = {}
+        for name in rng.sample(names, rng.randint(0, min(4, len(names)))):
+            attrs[name] = rng.choice(HINT_VALUES)
+        if rng.random() < 0.1:
+            attrs[rng.choice(['align', 'width', 'size', 'color'])] = rng.choice(HINT_VALUES)
+        cases.append((tag, attrs))
+    for tag, attrs in cases:
+        children = [rng.choice(['td', 'th', 'tr', 'p']) for _ in range(rng.randint(0, 3))] if tag == 'table' else []
+        try:
+            own, kids = hint_texts(tag, attrs, children)
+            out = '[' + ' | '.join(own) + ']'
+        except Exception as exc:  # noqa: BLE001
+            out, kids = f'err:{type(exc).__name__}', []
+        w_attrs = [[k, w_text(v)] for k, v in attrs.items()]
+        sec.add(sx.line('hints', tag, w_attrs), out,
+                meta={'tag': tag, 'attrs': attrs, 'signature': f'hints:{tag}:{sorted(attrs)}'},
+                nontrivial=bool(attrs), tags=[tag, f'attrs{len(attrs)}'])
+        for child, texts in zip(children, kids):
+            if child in ('td', 'th'):
+                own_child = [t for t in texts if t.startswith('padding-left')]
+                sec.add(sx.line('cellpadding', w_attrs), own_child[0] if own_child else 'none',
+                        meta={'tag': 'table', 'attrs': attrs, 'child': child, 'signature': f'cellpadding:{sorted(attrs)}'},
+                        nontrivial='cellpadding' in attrs, tags=['cellpadding'])
+
+
+def judge_hints(meta, impl):
+    """HTML 15.3 (rendering: presentational hints) clauses stated directly."""
+    attrs, tag = meta['attrs'], meta['tag']
+    if tag == 'font' and 'size' in attrs and 'child' not in meta:
+        import re
+        m = re.fullmatch(r'\s*([+-]?)\s*(\d+)\s*', attrs['size'])
+        if m:
+            n = int(m.group(2))
+            n = n + 3 if m.group(1) == '+' else 3 - n if m.group(1) == '-' else n
+            want = ['x-small', 'small', 'medium', 'large', 'x-large', 'xx-large', '48px'][max(1, min(7, n)) - 1]
+            if f'font-size:{want}' not in impl:
+                return (f'<font size="{attrs["size"]}"> gives {impl}; HTML maps it to font-size:{want} '
+                        f'(sizes 1..7 = x-small .. xxx-large, +n / -n relative to 3, clamped)')
+    if tag in ('div', 'td', 'th', 'tr', 'caption', 'thead', 'tbody', 'tfoot') and 'child' not in meta:
+        align = attrs.get('align', '').lower()
+        want = {'middle': 'center', 'center': 'center', 'left': 'left', 'right': 'right', 'justify': 'justify'}.get(align)
+        if want and f'text-align:{want}' not in impl:
+            return f'<{tag} align="{attrs["align"]}"> gives {impl}; HTML maps it to text-align:{want}'
+        if not want and 'text-align' in impl:
+            return f'<{tag} align="{attrs.get("align")}"> gives {impl}; no text-align hint is defined for that value'
     return None
